@@ -114,6 +114,16 @@ func init() {
 		}
 		return rep && strings.Contains(m.Why, "Incorrect or wrong number of arguments") && !strings.Contains(m.Why, "model (err 455252")
 	}
+	// INCRBYFLOAT on a key of another type with an increment that is itself refused (not a number, inf, nan):
+	// Redis tests the type of the key first and answers WRONGTYPE, the emulator validates the increment in the
+	// argument parser (or, for inf/nan, at the top of the handler) and answers that error.
+	signatures["incrbyfloat-error-order"] = func(m *Mismatch, args [][]byte) bool {
+		if len(args) != 3 || strings.ToLower(string(args[0])) != "incrbyfloat" {
+			return false
+		}
+		return strings.Contains(m.Why, "error code differs") && strings.Contains(m.Why, "model (err 57524f4e4754595045") &&
+			(strings.Contains(m.Why, "Incorrect or wrong number of arguments") || strings.Contains(m.Why, "not a valid float") || strings.Contains(m.Why, "would produce NaN or Infinity"))
+	}
 	// BITFIELD_RO with more than one GET is rejected by the argument parser.
 	signatures["bitfield-ro-multi-get"] = func(m *Mismatch, args [][]byte) bool {
 		if len(args) < 8 || strings.ToLower(string(args[0])) != "bitfield_ro" {
